@@ -27,7 +27,7 @@ META = dict(
 
 def run(c):
     d, res = _c04.pipeline(c)
-    return _c04.finish(c, d, res, ["placed", "marketPlaced", "marketBoundary", "feeStepPlaced", "roundedUpPlaced", "marketPartialEnd", "demandExceedsRest", "lowPriceFill", "cancel", "cancelAll", "cancelAllMixed", "mmImproved", "mmIndexHole", "mm", "mmDiff", "mmPartial", "completed", "expired", "canceled", "partialEnd", "filled", "emptied", "ledger"],
+    return _c04.finish(c, d, res, ["rqOrder", "rqMarket", "rqMarketBoundary", "rqFeeStep", "rqRoundedUp", "rqPartialEnd", "rqMarketPartialEnd", "rqExpiryDue", "rqCrossing", "rqDemandExceedsRest", "rqLowResidual", "cancel", "rqCancelAll", "rqCancelAllMixed", "rqMM", "rqMMDiff", "rqMMPartial", "rqMMIndexHole", "rqMMImproved"],
                        "bounded TLC model (3 configs: orders on app 1, pools on app 1, orders on app 2 = app id != pair id) checked exhaustively; its alphabet explored "
                        "breadth-first on the real module; seeded random multi-actor runs (limit / market / MM orders, cancel, cancel-all, MM cancel, expiry, "
                        "partial fills over several batches) with a drain phase; each recorded node is one TLC state of Trace_Liquidity")
